@@ -59,7 +59,7 @@ Qed.
 Lemma firstn_in {A} n : forall (l : list A) a, In a (firstn n l) -> In a l.
 Proof. induction n as [|n IH]; intros [|b l] a H; cbn in H; try tauto. destruct H as [<- | H]; cbn; auto. Qed.
 Lemma skipn_in {A} n : forall (l : list A) a, In a (skipn n l) -> In a l.
-Proof. induction n as [|n IH]; intros [|b l] a H; cbn in H; try tauto. cbn. auto. Qed.
+Proof. induction n as [|n IH]; intros l a H; [exact H|]. destruct l as [|b l]; [exact H|]. cbn in H. cbn. right. apply IH. exact H. Qed.
 
 Lemma compact_run_splice i n lvl p : no_key_tomb (p_files p) -> splice_of p (p_compact_run i n lvl p).
 Proof.
@@ -122,18 +122,16 @@ Lemma ex_upd_nth {A} (P : A -> Prop) (Q : A -> Prop) (g : A -> A) n : forall (l 
   (forall a, In a l -> Q a) -> (forall a, Q a -> (P (g a) <-> P a)) ->
   ((exists a, In a (upd_nth n g l) /\ P a) <-> exists a, In a l /\ P a).
 Proof.
-  unfold upd_nth. induction n as [|n IH]; intros [|b l] HQ H; cbn; try tauto.
-  - split; intros [a [[<- | Ha] Pa]].
-    + exists b. split; [auto|]. apply H; [apply HQ; cbn; auto | exact Pa].
-    + exists a. auto.
-    + exists (g a). split; [auto|]. apply H; [apply HQ; cbn; auto | exact Pa].
-    + exists a. auto.
+  unfold upd_nth. induction n as [|n IH]; intros [|b l] HQ H; cbn [In]; try tauto.
+  - assert (Hb : P (g b) <-> P b) by (apply H, HQ; cbn; auto).
+    split.
+    + intros [a [[E | Ha] Pa]]; [subst a; exists b; tauto | exists a; tauto].
+    + intros [a [[E | Ha] Pa]]; [subst a; exists (g b); tauto | exists a; tauto].
   - assert (HQ' : forall a, In a l -> Q a) by (intros a Ha; apply HQ; cbn; auto).
-    split; intros [a [[<- | Ha] Pa]].
-    + exists a. auto.
-    + destruct (proj1 (IH l HQ' H)) as [c [Hc Pc]]; [eauto|]. exists c. auto.
-    + exists a. auto.
-    + destruct (proj2 (IH l HQ' H)) as [c [Hc Pc]]; [eauto|]. exists c. auto.
+    pose proof (IH l HQ' H) as [I1 I2].
+    split.
+    + intros [a [[E | Ha] Pa]]; [exists a; tauto|]. destruct I1 as [c [Hc Pc]]; [eauto|]. exists c. tauto.
+    + intros [a [[E | Ha] Pa]]; [exists a; tauto|]. destruct I2 as [c [Hc Pc]]; [eauto|]. exists c. tauto.
 Qed.
 
 Definition event_fun (o : op) : option (nat * (part -> part)) :=
